@@ -146,6 +146,10 @@ class Host:
         rebind(subproc, 'check_call', check_call)
         rebind(subproc, 'check_output', check_output)
         rebind(subproc, 'resolve', lambda exe: '/vf-fake/bin/' + exe)
+        # LinuxRuntime reads runtime.cfg with configparser.SafeConfigParser().readfp, both removed in
+        # Python 3.12 (the repository targets 3.6): the loaded result is supplied directly
+        from treadmill import utils as tm_utils
+        rebind(linux_runtime, '_load_config', lambda _f: tm_utils.to_obj({'host_mount_whitelist': ['']}))
 
         def create_newnet(veth, dev_ip, gateway_ip, service_ip=None):
             self._step('newnet')
@@ -368,6 +372,8 @@ class Host:
         unique_name = c.unique
         container_dir = os.path.join(self.tm_env.apps_dir, unique_name, 'data')
         os.makedirs(container_dir, exist_ok=True)
+        with open(os.path.join(self.tm_env.apps_dir, unique_name, 'type'), 'w') as f:
+            f.write('longrun')      # what supervisor.create_service leaves: the container is a service directory
         network_client = self.tm_env.svc_network.make_client(
             os.path.join(container_dir, 'resources', 'network'))
         if not manifest['shared_network']:
@@ -427,11 +433,23 @@ class Host:
         from treadmill.runtime.linux import _finish
         c.close_sockets()           # the container's processes are gone before finish runs
         container = os.path.join(self.tm_env.apps_dir, c.unique)
+        if not os.path.isdir(container):
+            # an earlier finish through the runtime removed the directory: the cleanup service drops the
+            # link of such a container without finishing it again
+            self.finish_without_directory = getattr(self, 'finish_without_directory', 0) + 1
+            self.reap_network()
+            return 'complete'
         self.arm(cut)
         status = 'complete'
         try:
             if via == 'finish':
                 _finish.finish(self.tm_env, container)
+            elif via == 'runtime':
+                # the way the cleanup service finishes a container: Cleanup.invoke drops the link when the
+                # directory is gone, else LinuxRuntime.finish() = RuntimeBase.finish (not supervised any
+                # more -> _finish.finish -> remove the container directory)
+                from treadmill.runtime.linux import runtime as linux_runtime
+                linux_runtime.LinuxRuntime(self.tm_env, container).finish()
             else:
                 data_dir = os.path.join(container, 'data')
                 app = runtime.load_app_safe(c.unique, data_dir)
